@@ -67,7 +67,7 @@ def check_mem_history(hist):
     import z3
     from liftvc import den as D
     import signal
-    signal.alarm(20)
+    signal.alarm(common.patience(20))
     try:
         m, r, ref, st = run_mem_history(hist)
     except Exception as ex:
@@ -139,7 +139,7 @@ def run_sequence(codes):
         instrs.append(i)
     machine = emul_helper.x86_machine()
     import signal
-    signal.alarm(20)            # bounded observation of termination (machine only; the solver has its own budget)
+    signal.alarm(common.patience(20))            # bounded observation of termination (machine only; the solver has its own budget)
     try:
         emul_helper.emul_lines(machine, instrs)
     finally:
@@ -293,7 +293,7 @@ def check_rep(case):
     for a in init:
         machine.eval_instr([a])
     import signal
-    signal.alarm(20)
+    signal.alarm(common.patience(20))
     try:
         emul_helper.emul_lines(machine, [ins])
     except Exception as ex:
@@ -353,7 +353,7 @@ def check_repcap(case):
     machine = emul_helper.x86_machine()
     machine.eval_instr([ExprAff(S.ecx, ExprInt32(count)), ExprAff(S.df, ExprInt32(0)), ExprAff(S.edi, ExprInt32(0x100000))])
     import signal
-    signal.alarm(120)
+    signal.alarm(common.patience(120))
     try:
         emul_helper.emul_lines(machine, [ins])
     except Exception as ex:
